@@ -530,6 +530,10 @@ def h_reduce(it, fn, xs, *init):
 
 @handler(super)
 def h_super(it, *a):
+    if len(a) == 2 and isinstance(a[0], type):
+        from .engine import SuperProxy
+
+        return SuperProxy(a[0], a[1])
     raise Undecided("super()")
 
 
